@@ -84,6 +84,9 @@ pub struct RunStats {
     pub shape: u64,
     pub digest: u64,
     pub notes: Vec<String>,
+    /// named maxima (e.g. calibration ratios), aggregated by max
+    #[serde(default)]
+    pub maxima: BTreeMap<String, f64>,
     /// violations recorded by scenarios that keep going after a failure (one per class per run)
     #[serde(skip)]
     pub extra: Vec<Violation>,
@@ -115,6 +118,15 @@ impl RunStats {
     pub fn count(&mut self, k: &str, n: u64) {
         if n > 0 {
             *self.probes.entry(k.to_string()).or_insert(0) += n;
+        }
+    }
+    pub fn maximum(&mut self, k: &str, v: f64) {
+        if !v.is_finite() {
+            return;
+        }
+        let e = self.maxima.entry(k.to_string()).or_insert(f64::NEG_INFINITY);
+        if v > *e {
+            *e = v;
         }
     }
     pub fn probe(&mut self, k: &str) {
@@ -448,6 +460,8 @@ pub struct Agg {
     pub digest_xor: u64,
     pub digest_sum: u64,
     pub notes: Vec<String>,
+    #[serde(default)]
+    pub maxima: BTreeMap<String, f64>,
 }
 
 impl Agg {
@@ -467,6 +481,12 @@ impl Agg {
         }
         self.digest_xor ^= st.digest;
         self.digest_sum = self.digest_sum.wrapping_add(rng::mix(st.digest, 1));
+        for (k, v) in &st.maxima {
+            let e = self.maxima.entry(k.clone()).or_insert(f64::NEG_INFINITY);
+            if *v > *e {
+                *e = *v;
+            }
+        }
         for n in &st.notes {
             if self.notes.len() < 8 && !self.notes.contains(n) {
                 self.notes.push(n.clone());
@@ -487,6 +507,12 @@ impl Agg {
         self.shapes.extend(o.shapes.iter().copied());
         self.digest_xor ^= o.digest_xor;
         self.digest_sum = self.digest_sum.wrapping_add(o.digest_sum);
+        for (k, v) in &o.maxima {
+            let e = self.maxima.entry(k.clone()).or_insert(f64::NEG_INFINITY);
+            if *v > *e {
+                *e = *v;
+            }
+        }
         for n in &o.notes {
             if self.notes.len() < 8 && !self.notes.contains(n) {
                 self.notes.push(n.clone());
